@@ -65,7 +65,7 @@ def _recording_apply(cls, changes, input_lines):
         APPLIED.append({
             "lines": sorted(ch.linenos_to_delete),
             "add": None if ch.lines_to_add is None else list(ch.lines_to_add),
-            "error": ch.error_str,
+            "error": None if ch.error_str is None else harness.normalise_text(str(ch.error_str)),
             "nchanges": len(changes),
         })
     return _orig_apply(cls, changes, input_lines)
@@ -541,6 +541,8 @@ def render_unit(idx: int, site: Site, ctxname: str):
     ref = None
     if site.ref_site is not None:
         ref_body = apply_context(ctxname, site, site.ref_site)
+        if ref_body is None:
+            return None
         ref_lines = [f"{'async ' if site.is_async else ''}def f{idx}({', '.join(site.params)}):"] + _ind(
             [_tabify(ln) if by == "\t" else ln for ln in ref_body], by)
         ref = "\n".join(ref_lines).replace("$N", str(idx)) + "\n"
@@ -583,7 +585,7 @@ def sites_unused():
         ("rhs-effect-call", "eff(1)", dict(canonical=True)),
         ("rhs-effect-nested", "[eff(1), 2]", {}),
         ("rhs-raises-call", "int(a)", dict(calls=(("'12'",), ("'zz'",)))),
-        ("rhs-raises-subscript", "[1][a]", dict(calls=(("0",), ("5",)))),
+        ("rhs-raises-subscript", "[1, 2, 3][a]", dict(calls=(("0",), ("5",)))),
         ("rhs-attribute", "OBJ.name", {}),
         ("rhs-lambda", "lambda: eff(1)", {}),
         ("rhs-string", "'text'", {}),
@@ -794,6 +796,9 @@ def sites_use_fstrings():
 
     def add(tshape, tsrc, expect, ashape, params, asrc, calls, tmpl_canon):
         expr = f"{tsrc} % {asrc}"
+        if "%d" in tsrc and ashape in ("name-untyped", "one-tuple-of-name", "two-names"):
+            # an unannotated operand of %d is exercised with ints only: a str would already be an error in P
+            calls = tuple(tuple("3" if x.startswith(("'", "(")) else x for x in c) for c in calls)
         fix = expect and ashape not in ("subscript", "call", "constant", "name-and-constant", "not-a-tuple")
         top = INTENUM_TOP if "Col$N" in " ".join(params) else []
         for kind, lines, _r, post, simple in _expr_statement_kinds([expr], None):
@@ -968,3 +973,797 @@ def all_sites() -> dict:
             "missing_await": sites_missing_await(), "riders": rider_sites(),
         })
     return _POOLS
+
+
+# ---------------------------------------------------------------------------
+# mechanism keys (structural features of the witness only)
+
+
+def _template_convs(S) -> str:
+    convs = set()
+    for n in ast.walk(S) if S is not None else ():
+        if isinstance(n, ast.BinOp) and isinstance(n.op, ast.Mod):
+            for c in ast.walk(n.left):
+                if isinstance(c, ast.Constant) and isinstance(c.value, str):
+                    convs.update(re.findall(r"%([a-zA-Z])", c.value.replace("%%", "")))
+    return "".join(sorted(convs))
+
+
+def fix_mech_key(info: dict, source: str) -> str:
+    producer, stmt, (clause, _detail) = info["producer"], info["stmt_type"], info["violation"]
+    f = info["features"]
+    d = info["diag"]
+    tree = ast.parse(source)
+    hit = innermost_stmt(tree, d.lineno, d.col)
+    S = hit[0] if hit else None
+    generic = f"{producer}|{stmt}|{clause}"
+    if S is None or producer == "unused_ignore":
+        if f.get("text_after_ignore") or _text_after_marker(source, d.lineno):
+            return "unused_ignore|*|*:text-after-the-ignore-marker-becomes-code"
+        if _marker_inside_string(source, d.lineno, d.col):
+            return "unused_ignore|*|*:marker-inside-a-string-literal-is-edited"
+        return generic
+    if f.get("shares_line") and clause in ("ast-changed", "unparsable", "behaviour-changed"):
+        return "*|*|ast-changed:whole-physical-lines-replaced-so-a-statement-sharing-the-line-is-lost"
+    if f.get("range_short"):
+        return "*|*|*:line-range-of-multi-line-statement-stops-before-its-last-line"
+    if f.get("tab_indent") and not f.get("pure_removal") and clause == "unparsable":
+        return "*|*|unparsable:tab-indented-statement-re-emitted-with-spaces"
+    if producer == "unused" and f.get("pure_removal"):
+        if f.get("sole_in_block") and clause == "unparsable":
+            return "unused|Assign|unparsable:only-statement-of-a-block-removed"
+        if clause == "behaviour-changed" and f.get("n_targets") == 1 and f.get("rhs_has_call_or_yield") and not info.get("other_function"):
+            return "unused|Assign|behaviour-changed:right-hand-side-evaluation-removed-with-the-binding"
+    if producer == "unused" and not f.get("pure_removal") and clause == "behaviour-changed":
+        names = [n.id for n in ast.walk(S) if isinstance(n, ast.Name)]
+        if "_" in names:
+            return "unused|*|behaviour-changed:renaming-to-underscore-captures-an-existing-underscore"
+    if producer == "use_fstrings" and clause == "behaviour-changed" and not info.get("other_function"):
+        convs = _template_convs(S)
+        before, after = info.get("behaviour_pair", ((None,), (None,)))
+        if "d" in convs and after[0][0] == "ret":
+            return "use_fstrings|*|behaviour-changed:%d-becomes-plain-{}-for-a-non-int-operand"
+        if convs in ("s", "ds") and after[0][0] == "ret":
+            return "use_fstrings|*|behaviour-changed:tuple-operand-of-%-is-no-longer-unpacked"
+    if producer == "too_many_positional_args" and clause == "behaviour-changed" and _callee_has_posonly(tree, S):
+        return "too_many_positional_args|*|behaviour-changed:positional-only-parameter-passed-by-keyword"
+    return generic
+
+
+def _text_after_marker(source: str, lineno: int) -> bool:
+    lines = source.splitlines()
+    if not (1 <= lineno <= len(lines)):
+        return False
+    text = lines[lineno - 1]
+    ms = list(re.finditer(re.escape(IGN) + r"(\[[^\s\]]+\])?", text))
+    if not ms:
+        return False
+    rest = text[ms[-1].end():].strip()
+    try:
+        toks = list(tokenize.generate_tokens(io.StringIO(source).readline))
+    except (tokenize.TokenError, SyntaxError, IndentationError):
+        return False
+    in_comment = any(t.type == tokenize.COMMENT and t.start[0] == lineno and t.start[1] <= ms[0].start() for t in toks)
+    return bool(rest) and not rest.startswith("#") and in_comment
+
+
+def _marker_inside_string(source: str, lineno: int, col) -> bool:
+    try:
+        toks = list(tokenize.generate_tokens(io.StringIO(source).readline))
+    except (tokenize.TokenError, SyntaxError, IndentationError):
+        return False
+    for t in toks:
+        if t.type in (tokenize.STRING, getattr(tokenize, "FSTRING_MIDDLE", -1)) and t.start[0] <= lineno <= t.end[0]:
+            if (t.start[0], t.start[1]) <= (lineno, col if col is not None else 0) < (t.end[0], t.end[1]):
+                return True
+    return False
+
+
+def _callee_has_posonly(tree, S) -> bool:
+    defs = {}
+    for n in ast.walk(tree):
+        if isinstance(n, (ast.FunctionDef, ast.Lambda)):
+            name = getattr(n, "name", None)
+            if n.args.posonlyargs:
+                defs[name] = True
+    for n in ast.walk(S):
+        if isinstance(n, ast.Call):
+            nm = n.func.id if isinstance(n.func, ast.Name) else getattr(n.func, "attr", None)
+            if defs.get(nm):
+                return True
+    return False
+
+
+# ---------------------------------------------------------------------------
+# (1) driver: iterate steps, report, minimise
+
+MAX_STEPS = 6
+
+
+def first_fix_violation(source: str, calls: dict, refs: dict, want_key: Optional[str] = None, max_steps: int = MAX_STEPS):
+    """Iterate fix steps from `source`. -> (key, what, step source) of the first violation (or the first one whose key is
+    `want_key`), else None."""
+    src = source
+    found = None
+    for _ in range(max_steps):
+        try:
+            info = fix_step(src, calls, refs)
+        except (Undecided, SyntaxError):
+            break
+        if info["status"] != "applied":
+            break
+        if info["violation"] is not None:
+            key = fix_mech_key(info, src)
+            what = describe(info)
+            if want_key is None or key == want_key:
+                return key, what, src
+            found = found or (key, what, src)
+            if info["violation"][0] == "unparsable":
+                break
+        if info["producer"] in INTENT_CHANGING:
+            # the generator's reference describes the FIRST fix of that function only
+            refs = {k: v for k, v in refs.items() if k != info["fname"]}
+        src = info["new_code"]
+    return found if want_key is None else None
+
+
+def describe(info: dict) -> str:
+    d = info["diag"]
+    clause, detail = info["violation"]
+    ch = info["change"]
+    return (f"fix proposed by {d.short()} (rewritten statement: {info['stmt_type']}, lines {ch['lines'][0]}-{ch['lines'][-1]} "
+            f"replaced by {len(ch['add'])} line(s)): {clause}: {detail}")
+
+
+def _drop_function(source: str, fname: str) -> Optional[str]:
+    tree = ast.parse(source)
+    lines = source.splitlines(keepends=True)
+    for n in tree.body:
+        if isinstance(n, (ast.FunctionDef, ast.AsyncFunctionDef)) and n.name == fname:
+            first = min([n.lineno] + [d.lineno for d in n.decorator_list])
+            return "".join(lines[: first - 1] + lines[n.end_lineno:])
+    return None
+
+
+def minimise_fix(witness: dict, key: str, budget: int = 40) -> dict:
+    """Greedy: drop whole functions (bystander, other units), then single physical lines, while `key` is reproduced
+    as the violation of the FIRST step."""
+    best = dict(witness)
+
+    def still(cand) -> bool:
+        nonlocal budget
+        if budget <= 0:
+            return False
+        budget -= 1
+        if try_parse(cand["source"])[0] is None:
+            return False
+        try:
+            res = first_fix_violation(cand["source"], cand["calls"], cand["refs"], want_key=key, max_steps=1)
+        except Exception:  # noqa: BLE001
+            return False
+        return res is not None
+
+    for fname in list(best["calls"]):
+        if len(best["calls"]) <= 1:
+            break
+        src = _drop_function(best["source"], fname)
+        if src is None:
+            continue
+        cand = dict(best, source=src, calls={k: v for k, v in best["calls"].items() if k != fname},
+                    refs={k: v for k, v in best["refs"].items() if k != fname})
+        if still(cand):
+            best = cand
+    if not best["refs"]:
+        lines = best["source"].split("\n")
+        i = len(lines) - 1
+        keep = best["source"].find(PRELUDE)
+        protected = (best["source"][: keep + len(PRELUDE)].count("\n")) if keep >= 0 else 0
+        while i >= protected and budget > 0:
+            cand = dict(best, source="\n".join(lines[:i] + lines[i + 1:]))
+            if lines[i].strip() and still(cand):
+                best = cand
+                lines = best["source"].split("\n")
+            i -= 1
+    return best
+
+
+def report_fix(ctx, key, what, src, prog, seen_keys):
+    witness = {"kind": "fix", "source": src, "calls": {k: [list(c) for c in v] for k, v in prog["calls"].items()},
+               "refs": dict(prog["refs"]), "key": key}
+    if key not in seen_keys:
+        seen_keys.add(key)
+        try:
+            small = minimise_fix(witness, key)
+            res = first_fix_violation(small["source"], small["calls"], small["refs"], want_key=key, max_steps=1)
+            if res is not None:
+                witness, what = small, res[1]
+        except Exception as e:  # noqa: BLE001
+            ctx.note(f"minimiser failed for {key}: {e!r}")
+    ctx.violation(key, what, witness)
+
+
+def run_fix_program(ctx, prog, seen_keys, label: str) -> Optional[str]:
+    """-> text after the first applied step (for the CLI differential), or None."""
+    src = prog["source"]
+    calls, refs = prog["calls"], prog["refs"]
+    first_new = None
+    ctx.count("fix_programs")
+    for step in range(MAX_STEPS):
+        try:
+            info = fix_step(src, calls, refs)
+        except Undecided as e:
+            ctx.count("undecided")
+            ctx.note(f"{label}: {e}")
+            return first_new
+        ctx.count("evaluations")
+        ctx.count("fix_steps_run")
+        if info["status"] != "applied":
+            if step == 0:
+                ctx.histo("first_step_outcome", f"{prog['meta'][0][1]}:{info['status']}")
+                if info["status"] == "no-fix":
+                    for d in info["diags"][:1]:
+                        ctx.histo("first_diagnostic_without_replacement", d.code)
+            if info["status"] == "no-fix" and info.get("blocked"):
+                ctx.count("fix_blocked_by_earlier_diagnostic_without_replacement(observed)")
+            break
+        producer = info["producer"]
+        ctx.count("fix_applied")
+        ctx.count(f"fix_applied:{producer}")
+        ctx.histo("rewritten_statement_type", f"{producer}:{info['stmt_type']}")
+        ctx.histo("context_of_applied_fix", next((m[3] for m in prog["meta"] if m[0] == info["fname"]), "?"))
+        ctx.histo("step_index_of_applied_fix", str(step))
+        ctx.nontrivial((producer, info["shape"]))
+        if step == 0:
+            ctx.histo("first_step_outcome", f"{prog['meta'][0][1]}:applied")
+            first_new = info["new_code"]
+        clause = info["violation"][0] if info["violation"] else "held"
+        ctx.histo("verdict", f"{producer}:{clause}")
+        if len(ctx.samples) < 2 and info["violation"] is None:
+            ctx.sample({"producer": producer, "diagnostic": info["diag"].short(), "P": src[len(PRELUDE):], "P'": info["new_code"][len(PRELUDE):]})
+        if info["violation"] is not None:
+            key = fix_mech_key(info, src)
+            report_fix(ctx, key, describe(info), src, prog, seen_keys)
+            if clause == "unparsable":
+                break
+        if producer in INTENT_CHANGING:
+            refs = {k: v for k, v in refs.items() if k != info["fname"]}
+        src = info["new_code"]
+    else:
+        ctx.count("fix_step_limit_reached")
+    return first_new
+
+
+def enumerate_fix_programs(ctx):
+    """Deterministic part: (label, units); identical for every seed and shard."""
+    pools = all_sites()
+    out = []
+    for pname, sites in pools.items():
+        for si, s in enumerate(sites):
+            out.append((f"{pname}#{si}@plain", [(s, "plain")]))
+    for pname, sites in pools.items():
+        if pname == "riders":
+            continue
+        for si, s in enumerate(sites):
+            if s.canonical or ctx.tier == "thorough":
+                for c in CONTEXTS[1:]:
+                    out.append((f"{pname}#{si}@{c}", [(s, c)]))
+    return out
+
+
+def random_fix_program(rng):
+    pools = all_sites()
+    flat = [s for sites in pools.values() for s in sites]
+    n = rng.choice([2, 2, 3])
+    units = []
+    for _ in range(n):
+        s = rng.choice(flat if rng.random() < 0.6 else [x for x in flat if x.canonical])
+        units.append((s, rng.choice(CONTEXTS)))
+    header = rng.choice(["", "", "#!/usr/bin/env python\n", "# a leading comment\n\n"])
+    return units, header
+
+
+# ---------------------------------------------------------------------------
+# (2) add-ignores: iterate apply -> recheck up to the tool's own limit
+
+
+def _norm_text(source: str) -> str:
+    return "".join(ln + "\n" for ln in source.splitlines())
+
+
+def _string_token_lines(source: str) -> set:
+    """Physical lines that lie strictly inside a multi-line string token (not its first line)."""
+    out = set()
+    try:
+        for t in tokenize.generate_tokens(io.StringIO(source).readline):
+            if t.type in (tokenize.STRING, getattr(tokenize, "FSTRING_MIDDLE", -1)) and t.end[0] > t.start[0]:
+                out.update(range(t.start[0] + 1, t.end[0] + 1))
+    except (tokenize.TokenError, SyntaxError, IndentationError):
+        pass
+    return out
+
+
+def add_ignores_history(source: str, full: bool = False) -> dict:
+    """-> dict(outcome, iterations, final, added, violations=[(key, what)], early=bool)."""
+    res: dict = {"violations": [], "early": False, "added": [], "iterations": 0}
+    orig_tree, err = try_parse(source)
+    if orig_tree is None:
+        raise Undecided(f"original does not parse: {err}")
+    orig_dump = ast.dump(orig_tree)
+    base = run_diags(source, ignores_mode=True)
+    res["base"] = base
+    cur = source
+    added: list = []
+    recent: list = []
+    best_remaining = None
+    since_progress = 0
+    patience = 2 * len(base) + 8
+    last = None
+
+    def stmt_type_at(text, line):
+        t, _ = try_parse(text)
+        if t is None:
+            return "?"
+        hit = innermost_stmt(t, line, None)
+        return type(hit[0]).__name__ if hit else "Comment"
+
+    def viol(clause, mech, stmt, what):
+        key = f"add_ignores|{'*' if mech else stmt}|{clause}" + (f":{mech}" if mech else "")
+        res["violations"].append((key, what))
+
+    outcome = None
+    for it in range(ITERATION_LIMIT + 1):
+        tree, err = try_parse(cur)
+        if tree is None:
+            prev_text, d, L = last
+            prev_lines = prev_text.splitlines()
+            mech = None
+            if L >= 2 and prev_lines[L - 2].rstrip().endswith("\\"):
+                mech = "comment-line-inserted-after-a-backslash-continuation"
+            viol("unparsable", mech, stmt_type_at(prev_text, L),
+                 f"after adding an ignore for {d.short()} the file no longer parses: {type(err).__name__}: {err}")
+            outcome = "unparsable"
+            break
+        r, change = run_apply(cur, add_ignores=True)
+        res["iterations"] = it
+        if not r.diags:
+            outcome = "fixpoint"
+            break
+        stuck = change is None or change["add"] is None or r.new_code == _norm_text(cur)
+        n = len(r.diags)
+        if best_remaining is None or n < best_remaining:
+            best_remaining, since_progress = n, 0
+        else:
+            since_progress += 1
+        give_up_early = (not full) and since_progress > patience
+        if stuck or it == ITERATION_LIMIT or give_up_early:
+            res["early"] = give_up_early and not stuck and it < ITERATION_LIMIT
+            texts = {t for (_c, t) in recent[-8:]}
+            codes_by_text: dict = {}
+            for c, t in recent[-8:]:
+                codes_by_text.setdefault(t, set()).add(c)
+            mech = None
+            if stuck:
+                mech = None
+            elif any(len(v) >= 2 for v in codes_by_text.values()):
+                mech = "two-codes-on-one-line-each-new-comment-pushes-the-other-out-of-reach"
+            d0 = r.diags[0]
+            viol("no-fixpoint", mech, stmt_type_at(cur, d0.lineno or 1),
+                 f"{'nothing applied although ' if stuck else ''}{n} diagnostic(s) remain after {it} add-ignores iterations "
+                 f"({len(added)} comments added, {len(base)} diagnostics originally); next would be {d0.short()}"
+                 + (" [declared after no progress for %d iterations]" % since_progress if res["early"] else ""))
+            del texts
+            outcome = "no-fixpoint"
+            break
+        d = applied_diag(r.diags, change)
+        if d is None:
+            raise Undecided("applied add-ignores change matches no diagnostic")
+        L = change["lines"][0]
+        cur_lines = cur.splitlines()
+        recent.append((d.code, cur_lines[L - 1].strip() if L - 1 < len(cur_lines) else ""))
+        for a in added:
+            if a["pos"] >= L:
+                a["pos"] += 1
+        added.append({"pos": L, "code": d.code, "desc": d.description, "target": recent[-1][1]})
+        last = (cur, d, L)
+        cur = r.new_code
+    res["outcome"] = outcome
+    res["final"] = cur
+    res["added"] = added
+    if outcome != "fixpoint":
+        return res
+    # final syntax tree
+    final_tree = ast.parse(cur)
+    if ast.dump(final_tree) != orig_dump:
+        inside = _string_token_lines(cur)
+        hit = [a for a in added if a["pos"] in inside]
+        mech = "comment-line-inserted-inside-a-multi-line-string" if hit else None
+        a0 = hit[0] if hit else added[0]
+        viol("ast-changed", mech, stmt_type_at(cur, a0["pos"]),
+             f"fixpoint after {len(added)} comments but the syntax tree differs from the original"
+             + (f"; the comment for {a0['code']} at line {a0['pos']} lies inside a string literal" if hit else ""))
+    # each comment alone
+    final_lines = cur.splitlines()
+    res["removal_checks"] = 0
+    for a in added:
+        p = a["pos"]
+        without = "\n".join(final_lines[: p - 1] + final_lines[p:]) + "\n"
+        if try_parse(without)[0] is None:
+            continue
+        try:
+            back = run_diags(without, ignores_mode=True)
+        except Undecided:
+            continue
+        res["removal_checks"] += 1
+        wl = without.splitlines()
+
+        def is_mine(d) -> bool:
+            # the diagnostic(s) the comment was added for: its code, on the line whose text it was put above
+            return d.code == a["code"] and d.lineno is not None and wl[d.lineno - 1].strip() == a["target"]
+
+        mine = [d for d in back if is_mine(d)]
+        other = [d for d in back if not is_mine(d)]
+        a["brought_back"] = len(back)
+        a["same_code_same_line"] = len(mine)
+        if other:
+            leading = all(ln.startswith("#") for ln in final_lines[: p - 1])
+            mech = "comment-above-the-first-code-line-acts-as-file-level-ignore" if leading else None
+            viol("ignore-too-wide", mech, stmt_type_at(without, p),
+                 f"removing the comment added for {a['code']} (now line {p}) brings back {len(back)} diagnostics, "
+                 f"among them {other[0].short()}")
+        elif not mine:
+            viol("ignore-redundant", None, stmt_type_at(without, p),
+                 f"removing the comment added for {a['code']} (now line {p}) brings back nothing")
+    return res
+
+
+def first_ignores_violation(source: str, want_key: Optional[str] = None, full: bool = False):
+    h = add_ignores_history(source, full=full)
+    for key, what in h["violations"]:
+        if want_key is None or key == want_key:
+            return key, what
+    return None
+
+
+def minimise_ignores(source: str, key: str, budget: int = 30) -> str:
+    """Greedy removal of top-level statements / function-body statements (by line blocks) while `key` persists."""
+    best = source
+    crlf = "\r\n" in source
+
+    def ok(text) -> bool:
+        nonlocal budget
+        if budget <= 0 or try_parse(text)[0] is None:
+            return False
+        budget -= 1
+        try:
+            return first_ignores_violation(text, want_key=key) is not None
+        except (Undecided, SyntaxError):
+            return False
+
+    changed = True
+    while changed and budget > 0:
+        changed = False
+        tree, _ = try_parse(best)
+        if tree is None:
+            break
+        lines = best.splitlines()
+        blocks = []
+        for n in tree.body:
+            if isinstance(n, (ast.FunctionDef, ast.ClassDef)) and len(n.body) > 1:
+                for s in n.body:
+                    blocks.append((s.lineno, s.end_lineno))
+            first = min([n.lineno] + [d.lineno for d in getattr(n, "decorator_list", [])])
+            blocks.append((first, n.end_lineno))
+        for lo, hi in sorted(blocks, key=lambda b: (b[0] - b[1], -b[0])):
+            cand = (("\r\n" if crlf else "\n").join(lines[: lo - 1] + lines[hi:]) + ("\r\n" if crlf else "\n"))
+            if cand.strip() and ok(cand):
+                best = cand
+                changed = True
+                break
+    return best
+
+
+# ---------------------------------------------------------------------------
+# add-ignores corpus: vp.illtyped programs + single-snippet programs + line-1 programs; LF / tab / CRLF variants
+
+from vp import illtyped as _ill  # noqa: E402
+
+_HEAD = ["import os", "", "def deco(fn): return fn", "", 'def f1(a: int, b: str = "") -> int:', "    return a", ""]
+
+
+def _variant(text: str, variant: str) -> str:
+    if variant == "tab":
+        text = "\n".join(_tabify(ln) for ln in text.split("\n"))
+    if variant == "crlf":
+        text = text.replace("\n", "\r\n")
+    return text
+
+
+def focused_ignore_programs():
+    g = _ill._G(random.Random(0))
+    out = []
+    wraps = {
+        "plain": lambda b: b,
+        "if": lambda b: ["if f1(1):"] + _ind(b, "    "),
+        "for": lambda b: ["for _i in range(2):"] + _ind(b, "    "),
+        "try": lambda b: ["try:"] + _ind(b, "    ") + ["except Exception:", "    pass"],
+        "nested": lambda b: ["def inner() -> None:"] + _ind(b, "    ") + ["print(inner)"],
+    }
+    for fn in _ill.SINGLE + _ill.MULTI_DIAG + _ill.MULTI_LINE:
+        lines, _codes = fn(g)
+        for wname, w in wraps.items():
+            text = "\n".join(_HEAD + ["def holder(p: int = 0) -> None:"] + _ind(w(list(lines)), "    ")) + "\n"
+            for variant in ("lf", "tab", "crlf"):
+                if variant != "lf" and wname not in ("plain", "if"):
+                    continue
+                out.append((f"{fn.__name__}/{wname}/{variant}", _variant(text, variant)))
+    first = 'x0: int = "a"'
+    last = "y_last: str = 1"
+    for name, lines, nl in [
+        ("line1-and-same-code-later", [first] + _HEAD + [last], True),
+        ("line1-only", [first] + _HEAD, True),
+        ("shebang-line2-and-same-code-later", ["#!/usr/bin/env python", first] + _HEAD + [last], True),
+        ("leading-comment-line2-and-same-code-later", ["# a leading comment", first] + _HEAD + [last], True),
+        ("line1-two-same-code", ['x0: int = "a"; y0: str = 1'] + _HEAD + [last], True),
+        ("line1-two-codes", ['def f0(p: int = "zz") -> int: return undef_0'] + _HEAD, True),
+        ("last-line-no-newline", _HEAD + [last], False),
+        ("last-line-two-codes-no-newline", _HEAD + ["def holder(p: int = 0) -> None:", '    f1("a"); f1(1, 2, 3)'], False),
+    ]:
+        text = "\n".join(lines) + ("\n" if nl else "")
+        for variant in ("lf", "crlf"):
+            out.append((f"{name}/{variant}", _variant(text, variant)))
+    return out
+
+
+# ---------------------------------------------------------------------------
+# the real command line
+
+
+def _scratch() -> str:
+    d = os.environ.get("VERIF_SCRATCH")
+    if not d:
+        import tempfile
+
+        d = tempfile.mkdtemp(prefix="verif-C16-adhoc-")
+        os.environ["VERIF_SCRATCH"] = d
+    os.makedirs(d, exist_ok=True)
+    return d
+
+
+_cli_n = [0]
+
+
+def cli_apply(source: str, add_ignores: bool):
+    """Runs `python -m pyanalyze` with -A (one fix pass) or -r --add-ignores on a scratch file.
+    -> (file text afterwards, returncode, stderr tail)."""
+    from pyanalyze.error_code import DISABLED_IN_TESTS, ErrorCode
+
+    _cli_n[0] += 1
+    stem = f"vpc16cli_{os.getpid()}_{_cli_n[0]}"
+    d = os.path.join(_scratch(), stem + "_dir")
+    os.makedirs(d, exist_ok=True)
+    path = os.path.join(d, stem + ".py")
+    with open(path, "w", newline="") as f:
+        f.write(source)
+    off = set(c.name for c in DISABLED_IN_TESTS) | ({"unused_ignore", "bare_ignore"} if add_ignores else set())
+    cfg = os.path.join(d, "cfg.toml")
+    with open(cfg, "w") as f:
+        f.write("[tool.pyanalyze]\n" + "".join(f"{c.name} = {'false' if c.name in off else 'true'}\n" for c in ErrorCode))
+    argv = ["--config-file", cfg] + (["-r", "--add-ignores"] if add_ignores else ["-A"]) + [path]
+    p = harness.run_cli(argv, cwd=d, timeout=1800.0)
+    with open(path, newline="") as f:
+        text = f.read()
+    return text, p.returncode, (p.stderr or "")[-400:]
+
+
+# ---------------------------------------------------------------------------
+# shard / replay
+
+
+def report_ignores(ctx, key, what, source, seen_keys):
+    witness = {"kind": "ignores", "source": source, "key": key}
+    if key not in seen_keys:
+        seen_keys.add(key)
+        try:
+            small = minimise_ignores(source, key)
+            res = first_ignores_violation(small, want_key=key) if small != source else None
+            if res is not None:
+                witness, what = {"kind": "ignores", "source": small, "key": key}, res[1]
+        except Exception as e:  # noqa: BLE001
+            ctx.note(f"minimiser failed for {key}: {e!r}")
+    ctx.violation(key, what, witness)
+
+
+def run_ignores_program(ctx, label: str, source: str, seen_keys, full: bool):
+    try:
+        h = add_ignores_history(source, full=full)
+    except (Undecided, SyntaxError) as e:
+        ctx.count("undecided")
+        ctx.note(f"{label}: {e!r}")
+        return None
+    if not h["base"]:
+        ctx.count("ignore_programs_without_diagnostics")
+        return None
+    ctx.count("evaluations")
+    ctx.count("ignore_programs")
+    ctx.count("ignore_iterations", h["iterations"])
+    ctx.count(f"ignore_outcome:{h['outcome']}")
+    if h["outcome"] == "no-fixpoint":
+        ctx.count("no_fixpoint_run_to_the_limit" if not h["early"] else "no_fixpoint_declared_after_no_progress")
+    ctx.count("ignore_comments_added", len(h["added"]))
+    ctx.count("ignore_comment_removal_checks", h.get("removal_checks", 0))
+    for a in h["added"]:
+        if a.get("same_code_same_line", 0) >= 2:
+            ctx.count("comment_covering_several_same_code_diagnostics_of_its_line(observed)")
+    ctx.histo("ignore_iterations_to_outcome", f"{h['outcome']}:{min(h['iterations'] // 10 * 10, 150)}+")
+    ctx.histo("ignore_program_variant", ("crlf" if "\r\n" in source else "tab" if "\n\t" in source else "lf") + ":" + str(h["outcome"]))
+    per_line = Counter(d.lineno for d in h["base"])
+    codes_per_line: dict = {}
+    for d in h["base"]:
+        codes_per_line.setdefault(d.lineno, set()).add(d.code)
+    nlines = len(source.splitlines())
+    ctx.histo("ignore_program_shape", "two-codes-on-a-line" if any(len(v) > 1 for v in codes_per_line.values()) else "one-code-per-line")
+    ctx.histo("ignore_program_shape", "diag-on-line-1-or-2" if any(ln in (1, 2) for ln in per_line) else "no-diag-at-top")
+    ctx.histo("ignore_program_shape", "diag-on-last-line" if nlines in per_line else "no-diag-on-last-line")
+    ctx.nontrivial(("add_ignores", digest(source)))
+    if not h["violations"]:
+        ctx.count("ignore_programs_held")
+        if len(ctx.samples) < 3:
+            ctx.sample({"add-ignores": label, "P": source, "final": h["final"], "iterations": h["iterations"]})
+    for key, what in h["violations"]:
+        ctx.histo("verdict", "add_ignores:" + key.split("|")[2].split(":")[0])
+        report_ignores(ctx, key, what, source, seen_keys)
+    return h
+
+
+def shard(ctx) -> None:
+    seen_keys: set = set()
+    rng = ctx.rng
+    # ---------------- (1) fix steps ----------------
+    cli_fix_left = ctx.pick(1, 3)
+    det = enumerate_fix_programs(ctx)
+    ctx.count("fix_programs_enumerated_total", len(det) if ctx.shard == 0 else 0)
+    for i, (label, units) in enumerate(det):
+        if not ctx.mine(i):
+            continue
+        prog = build_program(units)
+        if prog is None:
+            ctx.count("context_not_applicable")
+            continue
+        first_new = run_fix_program(ctx, prog, seen_keys, label)
+        if first_new is not None and cli_fix_left > 0 and "@plain" in label and try_parse(first_new)[0] is not None:
+            cli_fix_left -= 1
+            text, rc, err = cli_apply(prog["source"], add_ignores=False)
+            ctx.count("cli_runs")
+            ctx.count("cli_fix_runs")
+            ctx.histo("cli_vs_in_process", "-A:" + ("equal" if text == first_new else "differs"))
+            if text != first_new:
+                ctx.violation("cli|-A|differs-from-in-process", f"`pyanalyze -A` (rc={rc}) left a different file than check_for_test(apply_changes=True); stderr: {err[-200:]}",
+                              {"kind": "cli-fix", "source": prog["source"], "key": "cli|-A|differs-from-in-process"})
+    nrand = ctx.pick(160, 3200)
+    prog_rng = random.Random(f"C16-random-fix/{ctx.seed}")
+    for i in range(nrand):
+        units, header = random_fix_program(prog_rng)
+        if not ctx.mine(i):
+            continue
+        prog = build_program(units, header=header)
+        if prog is None:
+            continue
+        ctx.count("fix_programs_random")
+        run_fix_program(ctx, prog, seen_keys, f"random#{i}")
+    # ---------------- (2) add-ignores ----------------
+    full_left = ctx.pick(1, 4)
+    cli_ign = {"fixpoint": ctx.pick(1, 2), "no-fixpoint": 1 if ctx.shard % 4 == 0 else 0}
+    corpus = [(f"focused:{n}", s) for n, s in focused_ignore_programs()]
+    ill_rng = random.Random(f"C16-illtyped/{ctx.seed}")
+    for i in range(ctx.pick(240, 3000)):
+        src = _ill.gen_program(ill_rng)
+        v = ("lf", "lf", "tab", "crlf")[i % 4]
+        corpus.append((f"illtyped#{i}/{v}", _variant(src, v)))
+    for i, (label, src) in enumerate(corpus):
+        if not ctx.mine(i):
+            continue
+        h = run_ignores_program(ctx, label, src, seen_keys, full=False)
+        if h is None:
+            continue
+        if h["outcome"] == "no-fixpoint" and h["early"] and full_left > 0:
+            # the statement's bound: the tool's own ITERATION_LIMIT, literally
+            full_left -= 1
+            h2 = add_ignores_history(src, full=True)
+            ctx.count("no_fixpoint_rechecked_to_the_limit")
+            ctx.histo("early_declaration_vs_full_limit", "confirmed" if h2["outcome"] == "no-fixpoint" else f"refuted:{h2['outcome']}")
+            if h2["outcome"] != "no-fixpoint":
+                ctx.violation("monitor|early-no-fixpoint-declaration-refuted", "the no-progress rule declared no-fixpoint but the full run converged",
+                              {"kind": "ignores", "source": src, "key": "monitor|early-no-fixpoint-declaration-refuted"})
+        if cli_ign.get(h["outcome"], 0) > 0 and "\r\n" not in src:
+            cli_ign[h["outcome"]] -= 1
+            text, rc, err = cli_apply(src, add_ignores=True)
+            ctx.count("cli_runs")
+            ctx.count("cli_add_ignores_runs")
+            if h["outcome"] == "fixpoint":
+                same = text == h["final"]
+                ctx.histo("cli_vs_in_process", "-r --add-ignores:" + ("equal" if same else "differs"))
+                if not same:
+                    ctx.violation("cli|add-ignores|differs-from-in-process", f"`pyanalyze -r --add-ignores` (rc={rc}) ended with a different file than the in-process iteration; stderr: {err[-200:]}",
+                                  {"kind": "cli-ignores", "source": src, "key": "cli|add-ignores|differs-from-in-process"})
+            else:
+                hit_limit = "Iteration Limit Exceeded" in err
+                ctx.histo("cli_vs_in_process", "-r --add-ignores on a non-converging program:" + ("AssertionError Iteration Limit Exceeded" if hit_limit else f"rc={rc}"))
+                if not hit_limit:
+                    ctx.violation("cli|add-ignores|no-fixpoint-not-confirmed", f"in-process iteration does not converge but the CLI ended rc={rc}: {err[-200:]}",
+                                  {"kind": "cli-ignores", "source": src, "key": "cli|add-ignores|no-fixpoint-not-confirmed"})
+
+
+def replay(witness):
+    kind = witness.get("kind")
+    want = witness.get("key")
+    try:
+        if kind == "fix":
+            calls = {k: [tuple(c) for c in v] for k, v in witness["calls"].items()}
+            res = first_fix_violation(witness["source"], calls, dict(witness.get("refs", {})), want_key=want)
+            if res is None and want is not None:
+                res = first_fix_violation(witness["source"], calls, dict(witness.get("refs", {})))
+            return (res[0], res[1]) if res else None
+        if kind == "ignores":
+            if want == "monitor|early-no-fixpoint-declaration-refuted":
+                a, b = add_ignores_history(witness["source"]), add_ignores_history(witness["source"], full=True)
+                return (want, "early declaration refuted") if a["outcome"] == "no-fixpoint" and b["outcome"] != "no-fixpoint" else None
+            res = first_ignores_violation(witness["source"], want_key=want)
+            if res is None and want is not None:
+                res = first_ignores_violation(witness["source"])
+            return res
+        if kind == "cli-fix":
+            r, _ = run_apply(witness["source"])
+            text, rc, err = cli_apply(witness["source"], add_ignores=False)
+            return (want, f"CLI -A result differs (rc={rc})") if text != r.new_code else None
+        if kind == "cli-ignores":
+            h = add_ignores_history(witness["source"], full=True)
+            text, rc, err = cli_apply(witness["source"], add_ignores=True)
+            if h["outcome"] == "fixpoint":
+                return (want, f"CLI result differs (rc={rc})") if text != h["final"] else None
+            return (want, f"CLI rc={rc}") if "Iteration Limit Exceeded" not in err else None
+    except Undecided as e:
+        print(f"replay undecided: {e}")
+        return None
+    raise ValueError(f"unknown witness kind {kind!r}")
+
+
+RULE = (
+    "fix case = one apply step P -> P' (program = prelude + 1-3 functions, each built around one fix site, + a bystander "
+    "function); sites are ENUMERATED per producer (unused variable/assignment: RHS literal / pure / effect call / raising / "
+    "yield / walrus, tuple, starred, multi-target, AnnAssign, for/with targets, several per line, 14 multi-line layouts, 14 "
+    "comprehension forms; missing_f: 28 literal forms x 5 statement kinds + multi-line, call contexts; use_fstrings: 22 "
+    "one-specifier and 4 two-specifier templates x 19+6 operand forms (typed int/bool/float/str/tuple/IntEnum parameters, "
+    "attributes, 1-tuples) x 5 statement kinds; too_many_positional_args: 23 callee/call forms x 4 statement kinds; "
+    "unused_ignore: 23 comment placements; missing_await: 5) in the plain context, every canonical site (thorough: every "
+    "site) in 15 further contexts (sole/second statement of if/else/for/try/with blocks, `;` neighbours, one-line if, "
+    "comments, nested def, two nesting levels, tab indentation), ~100 decompiler riders, plus random 2-3 unit combinations; "
+    "every program is iterated until nothing is applied. add-ignores case = one whole history of a vp.illtyped program "
+    "(LF / tab / CRLF) or of a single-snippet / line-1 / last-line program. Non-trivial = a replacement was proposed and "
+    "applied (fix) or the program has diagnostics (add-ignores); distinct by (producer, node-type skeleton of the "
+    "rewritten statement) / program digest."
+)
+ASSUMPTIONS = [
+    "CPython 3.12 executing P and P' on the generator's literal arguments is the judge of behaviour: (return value | exception "
+    "type, effect log of eff()); coroutines and generators are driven to completion (<= 50 resumptions)",
+    "intent of a fix: unused-variable removal, use_fstrings, too_many_positional_args, unused_ignore are refactorings (P' must "
+    "behave like P); missing_f and missing_await intend a behaviour change and are compared with the reference fix written by "
+    "the generator ('f' prefix on the literal; `await` / in a plain def `yield from` in front of the call)",
+    "the applied replacement is the first Replacement of the run (recorded by a record-only wrapper of "
+    "BaseNodeVisitor._apply_changes_to_lines); its diagnostic is the first reported one with that description inside the replaced lines",
+    "still-reported is decided on counts of (code, description) before and after",
+    "rewritten statement S = innermost statement covering the diagnostic position; 'other statements' = statements that are not "
+    "S, its ancestors or descendants; their ast.dump must survive in order",
+    "a comment's 'own diagnostic' = diagnostics of its code on the line it was put above (several same-code diagnostics of one "
+    "line are necessarily covered by one line-level comment: counted, not judged)",
+    "add-ignores runs use the test-suite configuration minus unused_ignore/bare_ignore; non-convergence is declared after "
+    "2*|D(P)|+8 iterations without a new minimum of remaining diagnostics, and re-run literally to ITERATION_LIMIT=150 for a sample per shard",
+    "unannotated parameters are called with ints and strs only; annotated ones with inhabitants of the annotation",
+]
+LEVEL_TEXT = (
+    "held-on-explored: every enumerated fix site x context and every add-ignores history listed in the rule was executed through "
+    "the real checker and judged by CPython execution / syntax-tree comparison; nothing is claimed about fix producers of the "
+    "asynq checkers (task_needs_yield, yield_checker, impure_async_call), nor about programs outside the enumerated shapes"
+)
+NSHARDS = 16
+WATCHDOG_S = {"quick": 3600, "thorough": 14400}
+FLOORS = {"quick": {}, "thorough": {}}
